@@ -55,7 +55,7 @@ class Spec:
     def __init__(self, prop, title, runs, rule, level="exploration",
                  required=(), assumptions=(), evaluations=None,
                  post=None, exhaustive=False, technique="", level_text="",
-                 level_note="", design_ref=""):
+                 level_note="", design_ref="", crash_kinds=None):
         self.prop = prop
         self.title = title
         self.runs = runs              # f(tier, seed) -> [RunSpec]
@@ -70,6 +70,9 @@ class Spec:
         self.level_text = level_text
         self.level_note = level_note
         self.design_ref = design_ref
+        # prefixes of abnormal-termination kinds that are violations of this
+        # property (None: all); anything else is inconclusive
+        self.crash_kinds = crash_kinds
 
 
 class Result:
@@ -122,7 +125,7 @@ def _replay_record(prop, key, spec, run, case, detail):
     }
 
 
-def collect(prop, pairs, res):
+def collect(prop, pairs, res, crash_kinds=None):
     """pairs: [(RunSpec, Run)] after execution."""
     for spec, run in pairs:
         info = {"binary": run.target.name, "cases": run.cases,
@@ -149,6 +152,14 @@ def collect(prop, pairs, res):
                     res.inconclusive.append(
                         "harness error in %s: %s" % (run.target.name,
                                                      cr["report"][-400:]))
+                    continue
+                if crash_kinds is not None and not any(
+                        cr["kind"].startswith(k) for k in crash_kinds):
+                    res.inconclusive.append(
+                        "%s ended abnormally (%s) at case %s; not a %s "
+                        "matter: %s" % (run.target.name, cr["kind"],
+                                        cr["case"], prop,
+                                        cr["report"][-300:]))
                     continue
                 key = "%s/%s/%s/%s" % (prop, spec.driver, cr["kind"],
                                        cr["frame"] or "-")
@@ -313,7 +324,7 @@ def standard_check(spec, tier, seed):
         if not handled or True:
             pairs = [(rs, r) for rs, r in pairs if not r.target.error]
     RN.execute([r for _, r in pairs], NCPU)
-    collect(spec.prop, pairs, res)
+    collect(spec.prop, pairs, res, spec.crash_kinds)
     # a timeout is re-run once on its own before anything is said about it
     for (rs, run, case) in res.extra.pop("hangs", []):
         if case is None or case >= 0xFFFFFFFFFFFFFFFE:
